@@ -31,6 +31,15 @@ def _dispatch(file, mode="r", buffering=-1, encoding=None, errors=None, newline=
         rel = sim.claims(file)
         if rel is not None:
             return sim.open(rel, mode, buffering, encoding, errors, newline)
+    if sim is not None and isinstance(file, int) and not isinstance(file, bool) and opener is None:
+        # os.fdopen(os.open(path, flags, mode)): a descriptor the caller opened itself (to choose
+        # flags or permission bits) wrapped into a file object - same simulated disk
+        try:
+            rel = sim.claims(os.readlink(f"/proc/self/fd/{file}"))
+        except OSError:
+            rel = None
+        if rel is not None:
+            return sim.open(rel, mode, buffering, encoding, errors, newline, fd=file, closefd=closefd)
     return _REAL_OPEN(file, mode, buffering, encoding, errors, newline, closefd, opener)
 
 
@@ -156,12 +165,12 @@ class IOSim:
         return None
 
     # -- open ---------------------------------------------------------------------------
-    def open(self, rel, mode, buffering, encoding, errors, newline):
+    def open(self, rel, mode, buffering, encoding, errors, newline, fd=None, closefd=True):
         self.event("open", rel, mode)
         path = os.path.join(self.root, rel)
         binary = "b" in mode
         rawmode = mode.replace("b", "").replace("t", "")
-        raw = SimRaw(path, rawmode)
+        raw = SimRaw(path, rawmode) if fd is None else SimRaw(fd, rawmode, closefd=closefd)
         raw._sim = self
         raw._rel = rel
         if buffering == 0:
